@@ -72,6 +72,25 @@ static void ParamError(Boolean InEnv, char* Arg) {
 #define BufferSize 4096
 static Byte Buffer[BufferSize];
 
+/* number of byte addresses in [Start, Start + Len) that the byte lane selection
+   (-m) keeps; the selection only looks at the two low address bits */
+
+static LongWord SelectedBelow(LongWord Len) {
+    LongWord Cnt = (Len >> 2) * (4 / SizeDiv), z;
+
+    for (z = Len & ~(LongWord)3; z < Len; z++) {
+        if ((z & ANDMask) == ANDEq) {
+            Cnt++;
+        }
+    }
+    return Cnt;
+}
+
+static LongWord SelectedCount(LongWord Start, LongWord Len) {
+    Start &= 3;
+    return SelectedBelow(Start + Len) - SelectedBelow(Start);
+}
+
 static void OpenTarget(void) {
     LongWord Rest, Trans, AHeader;
 
@@ -79,7 +98,7 @@ static void OpenTarget(void) {
     if (!TargFile) {
         ChkIO(TargName);
     }
-    RealFileLen = ((StopAdr - StartAdr + 1) * MaxGran) / SizeDiv;
+    RealFileLen = SelectedCount(StartAdr * MaxGran, (StopAdr - StartAdr + 1) * MaxGran);
 
     AHeader = abs(StartHeader);
     if (StartHeader != 0) {
@@ -258,7 +277,8 @@ static void ProcessFile(char const* FileName, LongWord Offset) {
                 /* in Zieldatei an passende Stelle */
 
                 if (fseek(TargFile,
-                          (((ErgStart - StartAdr) * Gran) / SizeDiv) + abs(StartHeader),
+                          SelectedCount(StartAdr * Gran, (ErgStart - StartAdr) * Gran)
+                                  + abs(StartHeader),
                           SEEK_SET)
                     == -1) {
                     ChkIO(TargName);
